@@ -121,6 +121,17 @@ func runC14(p *Prog, r *Report, tier string) {
 				}
 			}
 		})
+		// ... on EVERY path: a caller that returns early because "it is closed already" returns while a background
+		// goroutine may still be writing
+		allPaths := false
+		if b != nil {
+			q := &pathQuery{discharge: func(x ssa.Instruction) bool { return x == b }}
+			_, bad := q.findFromBlock(pub.Blocks[0])
+			allPaths = !bad
+		}
+		r.Check(a != nil && b != nil && allPaths, "R-CLOSE.wait-all-paths", fnKey(pub)+": every return waits for the background goroutines", p.pos(pub.Pos()),
+			"no return of CloseConnToCollector is reachable without wg.Wait()",
+			"CloseConnToCollector can return without wg.Wait() (for example when it finds the process closed already): a second or concurrent Close returns while the refresher / connection checker is still running and may still write", true)
 		r.Check(a != nil && b != nil && dominates(a, b), "R-CLOSE.wait", fnKey(pub)+": internal close then wg.Wait()", p.pos(pub.Pos()),
 			"the internal close dominates wg.Wait()", "CloseConnToCollector does not close and then wait for the background goroutines on every path", true)
 	}
